@@ -143,6 +143,66 @@ def run(ctx):
     return core.finish(ctx)
 
 
+def _calls_identity(b):
+    return any(a.get("k") == "const" and (a.get("fn") or "").endswith("convert::identity") for _bi, t in b.normal_calls() for a in t["args"])
+
+
+def _returned_values(b):
+    """where the value inside the `Ok(..)` this body returns comes from: {callee name | origin kind}. Looks through the
+    Ok / Poll::Ready wrappers on the way to the return place and through `identity`"""
+    out = set()
+    work = [({"k": "move", "p": [0]}, 0)]
+    seen = set()
+    while work:
+        op, depth = work.pop()
+        for o in b.origins(op):
+            key = (o.kind, o.site, o.proj)
+            if key in seen or depth > 12:
+                continue
+            seen.add(key)
+            if o.kind == "agg":
+                r = b.blocks[o.site[0]]["s"][o.site[1]]["r"]
+                if r.get("variant") in ("Ok", "Ready") and r.get("ops"):
+                    work.append((r["ops"][0], depth + 1))
+                    continue
+                if r.get("variant") == "Err":
+                    continue
+                out.add("agg")
+            elif o.kind == "call":
+                ct = b.call_at(o)
+                c = ct.get("callee") or ""
+                if c.endswith("convert::identity") and ct["args"]:
+                    work.append((ct["args"][0], depth + 1))
+                elif c.endswith(("FnOnce::call_once", "FnMut::call_mut", "Fn::call")) and len(ct["args"]) == 2 and any(x.kind == "const" and str(x.site).endswith("convert::identity") for x in b.origins(ct["args"][0])) and ct["args"][1].get("k") in ("move", "copy"):
+                    work.append(({"k": "move", "p": list(ct["args"][1]["p"]) + ["f0"]}, depth + 1))
+                elif c.endswith("FromResidual::from_residual"):
+                    continue
+                else:
+                    out.add(c or "?")
+            else:
+                out.add(o.kind)
+    if out & {"upvar", "arg"}:
+        # ... and what is stored into that place through a reference (`*actor = successor()` in a helper that was lent it)
+        for l, sts in b.partial.items():
+            for (_bi, _si, st) in sts:
+                if "*" not in st["p"][1:] or st["r"]["k"] != "use":
+                    continue
+                base = [o for o in b.origins([l]) if not (o.proj and str(o.proj[0]).startswith("<part:"))]
+                if not base or not all(o.kind in ("upvar", "arg") for o in base):
+                    continue
+                for x in b.origins(st["r"]["o"]):
+                    if x.kind == "call":
+                        ct = b.call_at(x)
+                        if ct.get("callee"):
+                            out.add(ct["callee"])
+                        else:
+                            fns = {str(y.site) for y in b.origins(ct["fnplace"]) if y.kind == "const" and "::" in str(y.site)} if ct.get("fnplace") else set()
+                            out |= fns or {"fn-pointer"}
+                    else:
+                        out.add(x.kind)
+    return out
+
+
 def check_receivers(ctx, fx, co, b, inst, kind, RULE="R03.4"):
     """RestartOnly: stopped/started on the argument, which is returned. RecreateFromDefault: stopped on the
     argument, started on the value produced by Default::default, which is returned."""
@@ -173,6 +233,34 @@ def check_receivers(ctx, fx, co, b, inst, kind, RULE="R03.4"):
             ctx.require(not stores, RULE, inst + ":returns-same-value", "RestartOnly must keep the actor value it was given, but overwrites it", fn=co["def"], site=stores[0][0] if stores else co["loc"])
         return
     n_ret = 0
+    # the whole cycle may be delegated to a crate-private async helper that is told how to obtain the next incarnation by a
+    # closure (`restart_with(actor, ctx, identity)` / `restart_with(actor, ctx, |_previous| A::default())`): judged on this
+    # strategy's own body with the helper and the closure inlined — what it returns is then visible as in the plain form
+    import inline
+    irec = inline.inlined(fx, co, inline.not_public)
+    if irec["inlined_from"]:
+        ib = inline.body(ctx, fx, co, inline.not_public)
+        srcs = _returned_values(ib)
+        lent = bool(srcs & {"upvar", "arg"}) and len(srcs) > 1  # the actor was lent to a helper that may store a successor into it
+        if srcs and lent:
+            # which path of the shared helper belongs to which strategy is the protocol rule's business (it follows the constants
+            # the strategy passes); here: nothing but the given actor or a fresh default can be what is handed back
+            allowed = {"upvar", "arg", "fn-pointer", "core::default::Default::default"}
+            if kind == "recreate":
+                good = srcs <= allowed and any(s.endswith("default::Default::default") for s in srcs)
+                ctx.require(good, RULE, inst + ":returns-fresh-value", "RecreateFromDefault must hand back the value created by Default::default(), returns %s" % sorted(map(str, srcs)), fn=co["def"], site=co["loc"])
+            else:
+                good = srcs <= allowed and not any(s.endswith("default::Default::default") for s in srcs)
+                ctx.require(good, RULE, inst + ":returns-same-value", "RestartOnly must hand back the actor value it was given, returns %s" % sorted(map(str, srcs)), fn=co["def"], site=co["loc"])
+            return
+        if srcs:
+            if kind == "recreate":
+                good = all((s or "").endswith("default::Default::default") for s in srcs)
+                ctx.require(good, RULE, inst + ":returns-fresh-value", "RecreateFromDefault must return the value created by Default::default(), returns %s" % sorted(map(str, srcs)), fn=co["def"], site=co["loc"])
+            else:
+                good = srcs <= {"upvar", "arg"}
+                ctx.require(good, RULE, inst + ":returns-same-value", "RestartOnly must return the actor value it was given, returns %s" % sorted(map(str, srcs)), fn=co["def"], site=co["loc"])
+            return
     # the whole cycle may be delegated to a crate-local async helper whose outcome is handed back unchanged
     # (`restart_cycle(actor, ctx, Successor::Fresh(A::default)).await`): the value rule is judged on the helper's body; which
     # of its paths belongs to which strategy is the business of the protocol rule, which follows the constants
